@@ -44,6 +44,8 @@ mod stream_glue;
 mod active_expiry;
 mod wal_modes;
 mod cmd_parse_opts;
+mod actor_reply;
+mod sim_substrate;
 use std::panic;
 
 pub struct Found {
@@ -78,6 +80,11 @@ fn main() {
     let oid = args[2].clone();
     let seed: u64 = args.get(3).and_then(|s| s.parse().ok()).unwrap_or(0);
     panic::set_hook(Box::new(|_| {}));
+    if pid == "__sim_substrate_dump" {
+        // hidden sub-command of the sim_substrate battery: `verif-replay __sim_substrate_dump <seed>` prints dump(seed) (a fresh process)
+        print!("{}", sim_substrate::dump(oid.parse().unwrap_or(0)));
+        return;
+    }
     let unit = oid.split('/').next().unwrap_or("").to_string();
     let res: Option<Found> = match unit.as_str() {
         "lattice" => lattice::search(&pid, &oid, seed),
@@ -125,6 +132,8 @@ fn main() {
         "active_expiry" => active_expiry::search(&pid, &oid, seed),
         "wal_modes" => wal_modes::search(&pid, &oid, seed),
         "cmd_parse_opts" => cmd_parse_opts::search(&pid, &oid, seed),
+        "actor_reply" => actor_reply::search(&pid, &oid, seed),
+        "sim_substrate" => sim_substrate::search(&pid, &oid, seed),
         _ => None,
     };
     match res {
